@@ -77,6 +77,7 @@ func c01Gen(tier string, seed int64) []ev.Case {
 		cs = append(cs, ev.MkCase("batch", c01Batch{Kind: "random", Seed: seed + int64(i), Count: 250}))
 	}
 	cs = append(cs, ev.MkCase("batch", c01Batch{Kind: "none", Seed: seed, Count: 60}))
+	cs = append(cs, ev.MkCase("batch", c01Batch{Kind: "long", Seed: seed, Count: 9}))
 	nUDP := 48
 	if tier == "thorough" {
 		nUDP = 6000
@@ -171,6 +172,14 @@ func c01Exec(run *ev.Run, c ev.Case) {
 				p.UDP = b.UDP
 				c01One(run, p)
 			}
+		case "long":
+			// sessions that carry many commands (every one of them must still get through)
+			for i := 0; i < b.Count; i++ {
+				p := c01Random(r, b.Seed*32452843+int64(i))
+				p.Suite = stdSuites()[i%9]
+				p.Cmds = []int{70, 130, 300}[i%3]
+				c01One(run, p)
+			}
 		case "none":
 			for i := 0; i < b.Count; i++ {
 				p := c01Random(r, b.Seed*15485863+int64(i))
@@ -241,7 +250,10 @@ func c01One(run *ev.Run, p c01P) {
 		if p.Suite.Conf != 0 {
 			rec.Confs = []byte{p.Suite.Conf}
 		}
-		csServer = &refbmc.CipherSuiteServer{Data: refbmc.EncodeSuiteRecords([]refbmc.SuiteRecord{rec}), Channel: 1}
+		// the wanted suite sits among others, so that the advertisement spans several 16-byte chunks
+		recs := []refbmc.SuiteRecord{{ID: 0x70, Auth: 0, Integs: []byte{0}, Confs: []byte{0}}, {ID: 0x91, OEM: true, IANA: 0x0000a2, Auth: 1, Integs: []byte{3}, Confs: []byte{2, 3}},
+			{ID: 0x71, Auth: 2, Integs: []byte{3}, Confs: []byte{2}}, rec, {ID: 0x72, Auth: 3, Integs: []byte{3}, Confs: []byte{3}}, {ID: 0x73, Auth: 1, Integs: []byte{3}, Confs: []byte{0}}}
+		csServer = &refbmc.CipherSuiteServer{Data: refbmc.EncodeSuiteRecords(recs[int(p.Seed&3):]), Channel: 1}
 	}
 	opts := &bmc.V2SessionOpts{
 		SessionOpts: bmc.SessionOpts{
@@ -341,7 +353,7 @@ func c01One(run *ev.Run, p c01P) {
 		}
 	}
 	for i := 0; i < p.Cmds; i++ {
-		cmd := &RawCmd{Op: ipmi.Operation{Function: ipmi.NetworkFunctionAppReq, Command: ipmi.CommandNumber(0x40 + i)}, Req: rbytes(r, r.Intn(30))}
+		cmd := &RawCmd{Op: ipmi.Operation{Function: ipmi.NetworkFunctionAppReq, Command: ipmi.CommandNumber(0x40 + i%16)}, Req: rbytes(r, r.Intn(30))}
 		damaged := 0
 		if env != nil && i%3 == 2 {
 			busyOnce = true
@@ -394,7 +406,7 @@ func c01One(run *ev.Run, p c01P) {
 			run.Violation("C01:command-not-seen", fmt.Sprintf("BMC handled %d commands after %d calls", len(sent), i+1), cs, nil)
 			return
 		}
-		if !bytes.Equal(cmd.Rsp.Data, sent[i].body) || sent[i].cmd != byte(0x40+i) {
+		if !bytes.Equal(cmd.Rsp.Data, sent[i].body) || sent[i].cmd != byte(0x40+i%16) {
 			run.Violation("C01:wrong-response-body", fmt.Sprintf("caller got %x, BMC sent %x", cmd.Rsp.Data, sent[i].body), cs, nil)
 			return
 		}
